@@ -69,6 +69,10 @@ func c08Run(c *Case) []any {
 			r["headers"] = map[string]any{"X-A": map[string]any{"schema": intS}}
 		case "arrOpt":
 			r["headers"] = map[string]any{"X-A": map[string]any{"schema": map[string]any{"type": "array", "items": intS}}}
+		case "contentReq":
+			r["headers"] = map[string]any{"X-A": map[string]any{"required": true, "content": map[string]any{"application/json": map[string]any{"schema": intS}}}}
+		case "contentOpt":
+			r["headers"] = map[string]any{"X-A": map[string]any{"content": map[string]any{"application/json": map[string]any{"schema": intS}}}}
 		case "arrMax1":
 			r["headers"] = map[string]any{"X-A": map[string]any{"schema": map[string]any{"type": "array", "items": intS, "maxItems": 1}}}
 		}
